@@ -56,6 +56,7 @@ def jobs(tier, seed):
     out.append(('max', ('Rmax', 'R2')))
     out.append(('max', ('N', 'Rmax', 'U2', 'R2')))
     out.append(('max', ('R2', 'UL', 'R3')))
+    out.append(('max', ('R2', 'UX', 'R3', 'R2')))
     return out
 
 
